@@ -10,17 +10,21 @@ static void s17a(const int *d, vcase *c) { all123(d[0], &c->n, &c->pat); c->m = 
 static void s17b(const int *d, vcase *c) { c->n = c->m = 4; c->pat = (uint64_t)d[0]; c->vals = (int[]){ 0, 1, 7, 15, 4, 3, 5 }[d[1]]; c->type = d[2]; }
 static void s17c(const int *d, vcase *c) { c->n = c->m = 5; c->pat = dev1_pattern(5, base_pattern(5, d[0]), d[1]); c->vals = V17[d[2]]; c->type = d[3]; }
 static void s17d(const int *d, vcase *c) { c->n = c->m = 6; c->pat = dev1_pattern(6, base_pattern(6, d[0]), d[1]); c->vals = V17[d[2]]; c->type = d[3]; }
+static void s17g(const int *d, vcase *c) { c->n = c->m = (int[]){ 8, 10, 12 }[d[0]]; c->gen = 2; c->pat = (uint64_t)(2000 + d[1] + 5000 * d[0]); c->vals = 17; c->type = d[2] ? TC : TD; }
+#define FAM17G(np) { "orders 8, 10, 12: generated patterns x generic tie-free magnitudes (V17) x {d,c}: heap operations of MC64 on longer augmenting paths; optimality by the scaling certificate (brute force up to order 8)", 3, { 3, np, 2 }, s17g }
 static const family F17Q[] = {
     { "ALL(1..3) x {V0-V7,V15} x type4", 3, { N_ALL123, 9, 4 }, s17a },
     { "ALL(4) x {V0,V1,V7,V15} x type4", 3, { N_ALL4, 4, 4 }, s17b },
     { "DEV_1(BASE(5)) x {V0-V7,V15} x type4", 4, { 9, 26, 9, 4 }, s17c },
     { "DEV_1(BASE(6)) x {V0-V7,V15} x type4", 4, { 9, 37, 9, 4 }, s17d },
+    FAM17G(3000),
 };
 static const family F17T[] = {
     { "ALL(1..3) x {V0-V7,V15} x type4", 3, { N_ALL123, 9, 4 }, s17a },
     { "ALL(4) x {V0,V1,V7,V15,V4,V3,V5} x type4", 3, { N_ALL4, 7, 4 }, s17b },
     { "DEV_1(BASE(5)) x {V0-V7,V15} x type4", 4, { 9, 26, 9, 4 }, s17c },
     { "DEV_1(BASE(6)) x {V0-V7,V15} x type4", 4, { 9, 37, 9, 4 }, s17d },
+    FAM17G(30000),
 };
 #define NF(F) ((int)(sizeof F / sizeof *F))
 static long sz_17(int tier) { return tier ? fam_total(F17T, NF(F17T)) : fam_total(F17Q, NF(F17Q)); }
@@ -57,7 +61,9 @@ static void run_C17(const vcase *c, vres *r)
         for (int i = 0; i < n; i++) for (int j = 0; j < n; j++) { nzm[i][j] = DZ(&A, i, j) && xmag(T, DM(&A, i, j)) != 0; lg[i][j] = nzm[i][j] ? logl(xmag(T, DM(&A, i, j))) : 0; }
         for (int i = 0; i < n; i++) { if (!nzm[i][perm[i]]) { wk_fail(r, "zero-on-diagonal", "row %d is matched to column %d where A has no non-zero", i, perm[i]); goto done; } got += lg[i][perm[i]]; }
         xr best = -1e300L; int cb = 0; xr tol = 1e-9L;
-        best_matching(n, lg, nzm, 0, 0, 0, &best, &cb, tol);
+        /* brute force over all matchings up to order 8; beyond that the scaling conditions checked below are a certificate of optimality (LP duality:
+           u_i + v_j + log|a_ij| <= 0 everywhere with equality on the matching) */
+        if (n <= 8) best_matching(n, lg, nzm, 0, 0, 0, &best, &cb, tol); else { best = got; cb = 1; }
         if (cb == 1) WK_COUNT(K_UNIQ); else WK_COUNT(K_TIED);
         xr gap = best - got, allow = 1e-9L * (1 + fabsl(best));
         if (gap > allow) { wk_fail(r, "not-max-product", "sum of log|diagonal| = %Lg but the best matching reaches %Lg (product ratio %Lg)", got, best, expl(gap)); goto done; }
